@@ -41,6 +41,11 @@ CLAIMED = {
    note="Trusted: Lean kernel + standard axioms; soundness of the VB20 membership proof itself (Gt equation) and of bulletproofs; forking lemma. The composition 'lookup slot = generator slot' uses hiddenGens taken in index order (model of both suites' verify).",
    technique="Lean 4 proof (loop invariant of the lookup + shared-response extraction) + steered-prover deviation catalogue",
    design="§7 C05"),
+ "C07": dict(
+   text="Lean 4 theorems, perfect (no assumption) and for every challenge: every linear Σ-protocol of the code is witness-indistinguishable under an explicit bijection of the nonces; the repaired commitment statement is perfectly hiding and its whole view (C, message response, blinder response) for one candidate equals the view for any other under a translation of the randomness; the pinned nonce-reuse distinguishers (commitment, ElGamal, per-byte) are proved as algebraic identities that separate candidates. The distinguisher catalogue (nonce-reuse solver over all responses × points × public generators, byte variant, point ratios, deterministic images, cross-presentation quotients) runs on the public view of honest presentations of every statement kind.",
+   note="Trusted: Lean kernel + standard axioms; one-dimensionality (prime order) of G1; random-oracle simulation; DDH/DLIN hiding of the ciphertext components that are decryptable by design (ElGamal pairs, byte ciphertexts, accumulator-witness encryption), zero-knowledge of bulletproofs, AES-GCM; uniformity of OsRng. The honest prover's draw schedule is not replayed from an RNG tape (no source hook): independence of blinders is checked through the catalogue, which reproduces all three pinned leaks when the repairs are reverted.",
+   technique="Lean 4 proof (perfect witness indistinguishability / hiding bijections) + public-data distinguisher catalogue",
+   design="§7 C07"),
  "C08": dict(
    text="Lean 4 theorems over the integer arithmetic of range statements for all of i64 and any group order above 2^65: the value opened by the verifier's lower (upper) adjusted commitment has a representative below 2^64 iff lower ≤ v (v ≤ upper), hence the two bulletproof claims are jointly satisfiable exactly for in-range values; the prover's pre-check is the same condition and, when it passes, its u64 arithmetic does not wrap and yields exactly the values the verifier's commitments open to. Real create/verify verdicts over the boundary lattice and random triples are compared with the model; out-of-range values are attacked with a steered prover.",
    note="Trusted: Lean kernel + standard axioms; soundness / completeness of the third-party 64-bit bulletproofs (the statement 'committed value < 2^64'); binding of the Pedersen commitment to the signed claim is C05's.",
@@ -61,6 +66,11 @@ CLAIMED = {
    note="Trusted: Lean kernel + standard axioms; a fresh transcript hitting the presented challenge is negligible (random oracle); canonical third-party decoders. Known finding: enumeration total_values above 16 bits is not covered by any hashed value.",
    technique="Lean 4 proof (tampered leaf moves a hashed recomputation) + exhaustive single-site mutation sweep",
    design="§7 C11"),
+ "C12": dict(
+   text="Lean 4 theorems: the randomised signature elements of BBS (a_bar = r•A) and PS ((r•σ₁, r•(σ₂+t•σ₁))) and the blinded accumulator witness are images of each other for any two valid signatures / witnesses under an explicit bijection of the holder's randomness (prime-order group), so with C07's witness indistinguishability the proof material of presentations from one credential is distributed as that from different credentials with the same disclosed claims. Linking tests (leaf equality, small / repeated cross-presentation difference quotients, pairing cross-ratios over all G1 × G2 leaves) are evaluated on same-credential and different-credential pairs of real presentations.",
+   note="Trusted: as C07. Statements that deliberately derive pseudonyms (verifiable encryption) are excluded by the property.",
+   technique="Lean 4 proof (randomisation bijections) + linking-test catalogue on pairs of real presentations",
+   design="§7 C12"),
  "C13": dict(
    text="Lean 4 theorems: the registry state machine (ordered sets + accumulator value, as coded after the atomicity repairs) refines an abstract status map never/active/revoked for every operation and, by induction, every history; an erroring operation returns the identical state; revoked is absorbing (never re-issued, never refreshed); the published value is V0 divided by (h(y)+α) exactly once per revoked identifier in every reachable state; every handle handed out verifies. Tied to the real Issuer (both suites) by an exhaustive prefix tree over a 17-operation alphabet plus random long histories, comparing return class, ordered sets, value and the verdict of every handle ever issued after every operation.",
    note="Trusted: Lean kernel + standard axioms; pairing check read as (y+α)•C = V; serde persist/restore is the identity on the modelled state (checked on the real code by JSON round trip at every position, not proved); claim validation and signing are abstracted to 'succeeds / fails' in this model (C15/C16 cover them).",
